@@ -155,6 +155,8 @@ def states_for(tier, ns, nc):
 
 def gen_cases(tier, seed0):
     seeds = list(range(1000 * seed0, 1000 * seed0 + (2 if tier == "quick" else 8)))
+    if 0 not in seeds:
+        seeds.append(0)          # the smallest valid seed is always part of the window
     combos = [("tauleap", "auto"), ("gillespie", "redist"), ("gillespie", "Poisson"), ("tauleap", "Poisson"),
               ("euler", "auto"), ("euler", "none"), ("gillespie", "none"), ("euler", "redist"), ("euler", "Poisson")]
     k = 0
@@ -167,7 +169,7 @@ def gen_cases(tier, seed0):
                     for sd in (seeds if not (engine == "euler" and isp in ("auto", "none")) else seeds[:1]):
                         k += 1
                         yield {"shape": [ns, nc], "state": st, "gtype": gtype, "engine": engine, "isp": isp, "seed": sd,
-                               "repeat": (k % 4 == 0)}
+                               "repeat": (k % 4 == 0) or (ns * nc <= 3 and isp != "none")}
 
 
 _CASES = None
